@@ -28,12 +28,12 @@ class Check(CheckBase):
             "case), bijection on the 41 valid characters against an independent table; AkaiPaddedString(12) "
             "parse(build(s)) for all strings of length <=2 over the 41 characters (and length 12 paddings); all 256 bytes "
             "through note<->AKAI byte and note<->MIDI byte; all 7x2x10 note spellings through text; all 256 tuning bytes; a 7-character name decoded / encoded right after a call "
-            "that ended with each of the 256 bytes (accepted or rejected): the codecs keep nothing between calls. "
+            "that ended with each of the 256 bytes (accepted or rejected): the codecs keep nothing between calls; the construct adapters the parsers use (note byte, tuning byte) over all 256 bytes. "
             "non-trivial = every case other than the identity on a single digit")
     assumptions = ["trailing blanks of a padded name are padding and excluded from the identity"]
 
     def shards(self):
-        return [{"part": p} for p in ("akai2ascii", "ascii2akai", "strings", "notes", "text", "tune", "sequences")]
+        return [{"part": p} for p in ("akai2ascii", "ascii2akai", "strings", "notes", "text", "tune", "sequences", "constructs")]
 
     def run_shard(self, shard, rep: Report):
         part = shard["replay_case"]["part"] if "replay_case" in shard else shard["part"]
@@ -75,6 +75,35 @@ class Check(CheckBase):
                 ok = st == "ok" and bytes(val) == probe_a
             rep.case(case, ok=ok, klass="sequence-ok" if ok else "sequence-differs", nontrivial=True, sig="sequences:name-after-another-call",
                      detail=None if ok else {"after_byte": b, "expected": probe_s, "observed": repr(val)[:80]})
+
+    def _constructs(self, rep, only=None):
+        """the same codecs as the PARSERS use them (construct adapters over one byte): parse(byte) equals the bare method,
+        build(parse(byte)) gives the byte back -- for all 256 bytes"""
+        from construct.core import Int8ul, Int8sl
+        from smpl_extract.akai import data_types as DT
+        from smpl_extract.midi import MidiNote
+        note = DT.AkaiMidiNote(Int8ul)
+        for b in range(256):
+            case = {"part": "constructs", "codec": "AkaiMidiNote", "byte": b}
+            if only and only != case:
+                continue
+            st, val = call(lambda: (note.parse(bytes([b])), MidiNote.from_akai_byte(b)))
+            ok = st == "ok" and val[0] == val[1]
+            if ok:
+                st, back = call(lambda: note.build(val[0]))
+                ok = st == "ok" and bytes(back) == bytes([b])
+            rep.case(case, ok=ok, klass="construct-note", nontrivial=True, sig="constructs:AkaiMidiNote",
+                     detail=None if ok else {"byte": b, "observed": repr(val)[:120]})
+        for sub, nm in ((Int8sl, "s8"), (Int8ul, "u8")):
+            tune = DT.AkaiTuneCents(sub)
+            for b in range(256):
+                case = {"part": "constructs", "codec": "AkaiTuneCents:" + nm, "byte": b}
+                if only and only != case:
+                    continue
+                st, val = call(lambda: tune.build(tune.parse(bytes([b]))))
+                ok = st == "ok" and bytes(val) == bytes([b])
+                rep.case(case, ok=ok, klass="construct-tune", nontrivial=True, sig="constructs:AkaiTuneCents",
+                         detail=None if ok else {"byte": b, "observed": repr(val)[:120]})
 
     def _ascii2akai(self, rep, only=None):
         from smpl_extract.akai.akai_string import char_ascii_to_akai, char_akai_to_ascii
